@@ -697,7 +697,7 @@ LEVEL_TEXT = ("Machine-checked theorems, for every size: on every state reachabl
               "several binary trees displays every triple any of them displays (supertree_displays). "
               "Correspondence: all unite histories up to length 3 (quick) / 4 (thorough) on 5 elements + random mixed histories to 12 "
               "elements; all subsets of the 12 triples on 4 leaves (thorough; ~600 in quick) + random triple lists on 5-6 leaves; every plane binary tree "
-              "on <= 5 leaves for the round trip; random compatible/incompatible tree sets for supertree.")
+              "on <= 5 leaves for the round trip; random compatible/incompatible tree sets for supertree. DisjointSet (find, unite, len, to_list, binary) and tree_from_triples / all_trees_from_triples are also translated into Gallina on every run (Gen/DsuGen.v, Gen/BuildGen.v) and proved equal to the models for ALL inputs, errors included (C20_gen_dsu_binary_eq, C20_gen_dsu_binary_total, C20_gen_tree_from_triples_eq_all, C20_gen_all_trees_from_triples_eq_all); tree_to_triples and the supertree functions remain hand-written models tied by correspondence.")
 LEVEL_NOTE = ("Trusted: Coq kernel; the translator pyfun.py (fail-closed, declared type table); the hand-written models (correspondence is differential testing on the explored domain, not proof). "
               "trees_to_triples (union of the per-tree results through Python sets) is not modelled as a function: supertree_displays is stated for every "
               "leaf list / triple list with the same elements as the unions, and the correspondence batch 'supertree' lets the model run BreakUp with one "
